@@ -241,6 +241,16 @@ def c09(out):
               "captured op lists judged by TLC with Ops!NormalForm (no empty op, strict Equal/non-Equal alternation, "
               "insertion before an Equal sits at its latest position); non-trivial = compaction merged or slid something; "
               "distinct by (alg, sequences, ranges, entry point, fuel)")
+    trace = drive(out, "c10ops")
+    res = core.validate("TraceOps", trace, out.prop)
+    out.add("evaluations", res["lines"])
+    out.add("traces_validated_against_impl", res["lines"])
+    out.add("states", res["states"])
+    rej = [(c, ["normal"], ln) for c, cl, ln in res["rejects"] if "normal" in cl]
+    if rej:
+        paths, bc = core.write_replays(out.prop, trace, rej, dict(family="c10ops"))
+        for c in sorted(bc)[:8]:
+            out.violation(f"c10ops case {c}: arbitrary script through Compact+Replace not in normal form", paths.get(c, "n/a"))
 
 
 @prop("C11")
@@ -300,6 +310,153 @@ def c15(out):
     out.add("evaluations", n)
     judge(out, "c01", trace, "TraceHook", {"anchors"})
     out.add("traces_validated_against_impl", n)
+
+
+# --------------------------------------------------------------------------- C07 C08 C10 (fault / adapter families)
+
+def hook_family(out, family, clauses, nontrivial, rule, spec="TraceHook"):
+    trace = drive(out, family)
+    n = nt = 0
+    seen = set()
+    samples = []
+    for st, evs, ret in scan_hook_cases(trace):
+        n += 1
+        if evs is None:
+            continue
+        if nontrivial(st, evs, ret):
+            key = (st["alg"], tuple(st["old"]), tuple(st["new"]), st["os"], st["oe"], st["ns"], st["ne"],
+                   st["index"], st["stack"], st["fuel"], st["fail_at"], json.dumps(st.get("in")))
+            if key not in seen:
+                seen.add(key)
+                nt += 1
+                if len(samples) < 3:
+                    samples.append({"start": st, "events": [{k: v for k, v in e.items() if k != "cmps"} for e in evs][:12]})
+    out.add("evaluations", n)
+    out.add("distinct_nontrivial", nt)
+    out.add("rule", rule)
+    out.add("samples", samples)
+    judge(out, family, trace, spec, clauses)
+    out.add("traces_validated_against_impl", n)
+    out.add("states", out.cov.get("trace_states", 0))
+    out.add("transitions", out.cov.get("trace_lines_validated", 0))
+    return trace
+
+
+C07_CLAUSES = {"script", "carried", "recon", "panic", "noreturn", "after_finish", "finish_twice", "no_finish",
+               "ret_error", "afterexpiry", "never_eq", "plumbing"}
+
+
+@prop("C07")
+def c07(out):
+    def nt(st, evs, ret):
+        return st["fuel"] >= 0 and st["oe"] > st["os"] and st["ne"] > st["ns"] and \
+            any(e["ev"] == "probe" and e["exp"] for e in evs)
+    hook_family(out, "c07", C07_CLAUSES, nt,
+                "fault enumeration over the deadline: for every input the run with a never-expiring virtual deadline counts the "
+                "probes P, then every expiry index k in 0..P (sampled above 8 items) is run under the virtual clock and the event "
+                "trace (incl. probe events with the comparison counter) is validated by TLC against Script.tla plus the post-expiry "
+                "work bound cmps(ret)-cmps(first expired probe) <= 4(N+M+1); `same` records compare no-deadline vs never-expiring "
+                "deadline and builder/capture plumbing vs the algorithm-level call; non-trivial = expiry actually struck on "
+                "non-empty ranges; distinct by (alg, input, ranges, stack, fuel)")
+    out.level = "model_checking"
+
+
+C08_CLAUSES = {"after_finish", "finish_twice", "no_finish", "finish_leaked", "after_error", "ret_error",
+               "nofinish_forward", "mutref_forward", "default_replace", "noreturn"}
+
+
+@prop("C08")
+def c08(out):
+    def nt(st, evs, ret):
+        hook = [e for e in evs if e["ev"] != "probe"]
+        return st["fail_at"] >= 0 and hook and hook[-1].get("err") and hook[-1]["ev"] != "finish"
+    hook_family(out, "c08", C08_CLAUSES, nt,
+                "fault enumeration over the failing hook call: for every input, algorithm and adapter stack {none, &mut, NoFinishHook, "
+                "Replace, Replace over a hook without replace, Compact, Compact+Replace (both hook kinds)} the un-failed run counts the "
+                "calls C, then every k in 0..C is run with a hook failing at call k (also combined with expiry indices); TLC validates "
+                "finish-once-and-last, nothing-after-error and error identity on every trace; comparison records check NoFinishHook / "
+                "&mut forwarding and the default replace = delete + insert; non-trivial = a call before finish failed")
+
+
+C10_CLAUSES = {"script", "carried", "recon", "panic", "noreturn", "after_finish", "finish_twice", "no_finish",
+               "ret_error", "totals"}
+
+
+@prop("C10")
+def c10(out):
+    def nt(st, evs, ret):
+        outp = [[{"equal": 0, "delete": 1, "insert": 2, "replace": 3, "finish": 4}[e["ev"]]] for e in evs]
+        return len(outp) - 1 != len(st.get("in", []))
+    hook_family(out, "c10", C10_CLAUSES | {"input_invalid"}, nt,
+                "random valid edit scripts (any interleaving of delete/insert runs, split equal runs; the input itself is checked by "
+                "TLC to be a Script behaviour) for all pairs of the bound are fed through Compact, Replace and Compact+Replace; the "
+                "output event trace is validated by TLC against Script.tla, with deleted/inserted totals equal to the input's and "
+                "completion at finish; non-trivial = the adapter changed the number of calls; distinct by (input, script, stack)")
+    # both adapters => normal form (C09 clause evaluated on the captured output)
+    trace = drive(out, "c10ops")
+    res = core.validate("TraceOps", trace, out.prop)
+    out.add("evaluations", res["lines"])
+    out.add("traces_validated_against_impl", res["lines"])
+    out.add("states", res["states"])
+    rej = [(c, [x for x in cl if x in ("normal", "valid", "panic")], ln) for c, cl, ln in res["rejects"]]
+    rej = [r for r in rej if r[1]]
+    if rej:
+        paths, bc = core.write_replays(out.prop, trace, rej, dict(family="c10ops"))
+        for c in sorted(bc)[:8]:
+            out.violation(f"c10ops case {c}: clause(s) {sorted(bc[c])}", paths.get(c, "n/a"))
+
+
+# --------------------------------------------------------------------------- call-record families
+
+def calls_family(out, family, clauses, nontrivial, rule, sample_keys=None, spec="TraceCalls", extra=(), nounicode=False,
+                 name=None):
+    """Generic check of a call-record family: run the driver, count, validate with TLC."""
+    trace = drive(out, family, extra=extra, nounicode=nounicode, name=name)
+    n = nt = 0
+    seen = set()
+    samples = []
+    for r in scan_records(trace):
+        n += 1
+        if nontrivial(r):
+            key = json.dumps({k: v for k, v in r.items() if k != "case"}, sort_keys=True)
+            if key not in seen:
+                seen.add(key)
+                nt += 1
+                if len(samples) < 3:
+                    samples.append({k: r[k] for k in (sample_keys or r.keys()) if k in r})
+    out.add("evaluations", n)
+    out.add("distinct_nontrivial", nt)
+    out.add("rule", rule)
+    out.add("samples", samples)
+    res = core.validate(spec, trace, out.prop)
+    out.add("traces_validated_against_impl", n)
+    out.add("states", res["states"])
+    out.add("transitions", res["lines"])
+    rej = [(c, [x for x in cl if x in clauses], ln) for c, cl, ln in res["rejects"]]
+    rej = [r for r in rej if r[1]]
+    if rej:
+        paths, bc = core.write_replays(out.prop, trace, rej, dict(family=family))
+        for c in sorted(bc)[:8]:
+            out.violation(f"{family} case {c}: clause(s) {sorted(bc[c])}", paths.get(c, "n/a"))
+        out.add("rejected_cases", len(bc))
+    return trace, res
+
+
+@prop("C19")
+def c19(out):
+    calls_family(out, "c19", {"work", "panic"}, lambda r: r["n"] + r["m"] >= 200,
+                 "comparison counts (counting PartialEq element type) of Myers and Patience on near-identical, block-move, periodic, "
+                 "small/large-alphabet random, unrelated and one-sided inputs up to 3000 items, judged by TLC with "
+                 "Work!WorkBound: cmps <= 4(N+M+1)(D+1), D from the TLA+ LCS oracle where the sequences are recorded (<=300 items, "
+                 "Myers) and the reported script size otherwise; plus the same bound on every exhaustive small pair of the C01 "
+                 "family; non-trivial = N+M >= 200",
+                 sample_keys=("alg", "family", "n", "m", "d", "cmps"))
+    trace = drive(out, "c01")
+    n = sum(1 for st, evs, ret in scan_hook_cases(trace) if evs is not None and st["alg"] != "lcs")
+    out.add("evaluations", n)
+    judge(out, "c01", trace, "TraceHook", {"work"})
+    out.add("traces_validated_against_impl", n)
+    out.add("states", out.cov.get("trace_states", 0))
 
 
 # --------------------------------------------------------------------------- setup / selftest / replay
